@@ -432,6 +432,12 @@ def lib_verification(ses, rep):
         if isinstance(v, Lazy):
             continue
         conds = []
+        if is_ok:       # success is only ever reported for text that went through the parser and the formatter
+            for nm, calls in (("parsed-before-ok", pr), ("formatted-before-ok", fa)):
+                oid = f"format_code/path{pi}/{nm}"
+                r, m = ses.obligation(oid, list(o.pc), z3.BoolVal(not calls), "an Ok path of format_code calls the parser and format_ast")
+                if r == "sat":
+                    bad.append((oid, f"format_code returns Ok on a path that never {'parses the text' if nm.startswith('parsed') else 'calls format_ast'}", "broken"))
         if pr:
             conds.append(("parse-error-propagates", ex.discr(o.state, pr[-1][2]) != 0))
         if fa:
